@@ -566,6 +566,10 @@ void run(Src &src, Case &c)
     bool twoModels = src.flip(40);
     u64 coA = src.below(97), coB = src.below(64);
     u64 interleave = src.below(1u << 16);
+    // history (read last so that older tapes keep their meaning): after the first model is released, new Variable
+    // objects are placed at the SAME addresses with another scenario and analysed by the SAME Analyser. 7 = no recycling.
+    int recycleSel = static_cast<int>(src.below(8));
+    int scenario2 = recycleSel == 7 ? -1 : (scenario + 1 + recycleSel % 5) % 6;
 
     // distinct objects (a pair may share one object with the other pair)
     std::vector<u64> addrs;
@@ -599,38 +603,43 @@ void run(Src &src, Case &c)
 
     static const char *scenarioNames[] = {"A~B only", "C~D only", "A~B and C~D", "no equivalence", "A~C and B~D", "A~B~C"};
     std::vector<std::pair<int, int>> edges;
-    auto link = [&](int x, int y) {
-        if (x == y) {
-            return;
+    std::vector<int> cls;
+    // edges and reference classes of a scenario
+    auto setScenario = [&](int sc) {
+        edges.clear();
+        auto link = [&](int x, int y) {
+            if (x == y) {
+                return;
+            }
+            if (via >= 0 && edges.empty()) {
+                edges.emplace_back(x, via); // the first equivalence is realised through a third variable (indirect)
+                edges.emplace_back(via, y);
+            } else {
+                edges.emplace_back(x, y);
+            }
+        };
+        switch (sc) {
+        case 0: link(ia, ib); break;
+        case 1: link(ic, id); break;
+        case 2: link(ia, ib); link(ic, id); break;
+        case 3: break;
+        case 4: link(ia, ic); link(ib, id); break;
+        default: link(ia, ib); link(ib, ic); break;
         }
-        if (via >= 0 && edges.empty()) {
-            edges.emplace_back(x, via); // the first equivalence is realised through a third variable (indirect)
-            edges.emplace_back(via, y);
-        } else {
-            edges.emplace_back(x, y);
-        }
-    };
-    switch (scenario) {
-    case 0: link(ia, ib); break;
-    case 1: link(ic, id); break;
-    case 2: link(ia, ib); link(ic, id); break;
-    case 3: break;
-    case 4: link(ia, ic); link(ib, id); break;
-    default: link(ia, ib); link(ib, ic); break;
-    }
-    // reference classes
-    std::vector<int> cls(static_cast<size_t>(nAll));
-    std::iota(cls.begin(), cls.end(), 0);
-    for (bool changed = true; changed;) {
-        changed = false;
-        for (const auto &e : edges) {
-            int m = std::min(cls[static_cast<size_t>(e.first)], cls[static_cast<size_t>(e.second)]);
-            if (cls[static_cast<size_t>(e.first)] != m || cls[static_cast<size_t>(e.second)] != m) {
-                cls[static_cast<size_t>(e.first)] = cls[static_cast<size_t>(e.second)] = m;
-                changed = true;
+        cls.assign(static_cast<size_t>(nAll), 0);
+        std::iota(cls.begin(), cls.end(), 0);
+        for (bool changed = true; changed;) {
+            changed = false;
+            for (const auto &e : edges) {
+                int m = std::min(cls[static_cast<size_t>(e.first)], cls[static_cast<size_t>(e.second)]);
+                if (cls[static_cast<size_t>(e.first)] != m || cls[static_cast<size_t>(e.second)] != m) {
+                    cls[static_cast<size_t>(e.first)] = cls[static_cast<size_t>(e.second)] = m;
+                    changed = true;
+                }
             }
         }
-    }
+    };
+    setScenario(scenario);
     auto direct = [&](int x, int y) {
         for (const auto &e : edges) {
             if ((e.first == x && e.second == y) || (e.first == y && e.second == x)) {
@@ -646,12 +655,16 @@ void run(Src &src, Case &c)
          << " bytes, sizeof(Variable)=" << kObject << "\nmodelled 64-bit Cantor keys: key(A,B)=" << hex(modelledKey(q.a, q.b)) << " key(C,D)=" << hex(modelledKey(q.c, q.d)) << (modelled ? " (equal)" : "")
          << "\nscenario: " << scenarioNames[scenario] << (viaPadding ? " (first equivalence through a third variable)" : "") << ", extra variables=" << nPad << ", component order=affine(" << compOrder.a << "," << compOrder.b
          << "), first asked pair #" << firstPair << ", analyser models=" << (twoModels ? 2 : 1) << ", interleave=" << interleave;
+    if (scenario2 >= 0) {
+        text << "\nthen: model released, new Variable objects at the same addresses, scenario: " << scenarioNames[scenario2] << ", analysed by the first Analyser again";
+    }
     c.text = text.str();
     c.hash = hashStr(c.text);
     c.weight = c.text.size();
     c.cls("family:" + q.family);
     c.cls(std::string("scenario:") + scenarioNames[scenario]);
     if (viaPadding) c.cls("indirect-equivalence");
+    if (scenario2 >= 0) c.cls("history:addresses-recycled");
     if (nPlaced < 4) c.cls("shared-object");
     if (modelled) c.cls("modelled-key-collision");
     if (!q.ok) {
@@ -673,37 +686,47 @@ void run(Src &src, Case &c)
 
     {
         // ---- build: every variable in a component of its own (siblings, public interface), one initial value per class
-        ModelPtr model = Model::create("m");
-        std::vector<VariablePtr> vars(static_cast<size_t>(nAll));
-        for (int i = 0; i < nAll; ++i) {
-            std::string name = "x" + std::to_string(i);
-            VariablePtr v;
-            if (i < nPlaced) {
-                long before = c18alloc::gServed;
-                v = createAt(addrs[static_cast<size_t>(i)], name);
-                VP_CHECK(c, c18alloc::gServed == before + 1 && reinterpret_cast<u64>(v.get()) == addrs[static_cast<size_t>(i)], "C18.harness|placement",
-                         "Variable::create() did not take its object from the armed address " << hex(addrs[static_cast<size_t>(i)]) << " (got " << hex(reinterpret_cast<u64>(v.get())) << ")");
-            } else {
-                v = Variable::create(name);
+        ModelPtr model;
+        std::vector<VariablePtr> vars;
+        auto build = [&]() -> bool {
+            model = Model::create("m");
+            vars.assign(static_cast<size_t>(nAll), nullptr);
+            for (int i = 0; i < nAll; ++i) {
+                std::string name = "x" + std::to_string(i);
+                VariablePtr v;
+                if (i < nPlaced) {
+                    long before = c18alloc::gServed;
+                    v = createAt(addrs[static_cast<size_t>(i)], name);
+                    if (c18alloc::gServed != before + 1 || reinterpret_cast<u64>(v.get()) != addrs[static_cast<size_t>(i)]) {
+                        c.fail("C18.harness|placement", "Variable::create() did not take its object from the armed address " + hex(addrs[static_cast<size_t>(i)]) + " (got " + hex(reinterpret_cast<u64>(v.get())) + ")");
+                        return false;
+                    }
+                } else {
+                    v = Variable::create(name);
+                }
+                v->setUnits("dimensionless");
+                v->setInterfaceType("public");
+                vars[static_cast<size_t>(i)] = v;
             }
-            v->setUnits("dimensionless");
-            v->setInterfaceType("public");
-            vars[static_cast<size_t>(i)] = v;
-        }
-        for (int i = 0; i < nAll; ++i) {
-            if (cls[static_cast<size_t>(i)] == i) {
-                vars[static_cast<size_t>(i)]->setInitialValue(static_cast<double>(i + 1));
+            for (int i = 0; i < nAll; ++i) {
+                if (cls[static_cast<size_t>(i)] == i) {
+                    vars[static_cast<size_t>(i)]->setInitialValue(static_cast<double>(i + 1));
+                }
             }
-        }
-        for (int k = 0; k < nAll; ++k) {
-            int i = static_cast<int>(compOrder.at(static_cast<u64>(k)));
-            auto comp = Component::create("c" + std::to_string(i));
-            comp->addVariable(vars[static_cast<size_t>(i)]);
-            model->addComponent(comp);
-        }
-        for (size_t k = 0; k < edges.size(); ++k) {
-            bool sw = ((interleave >> k) & 1) != 0;
-            Variable::addEquivalence(vars[static_cast<size_t>(sw ? edges[k].second : edges[k].first)], vars[static_cast<size_t>(sw ? edges[k].first : edges[k].second)]);
+            for (int k = 0; k < nAll; ++k) {
+                int i = static_cast<int>(compOrder.at(static_cast<u64>(k)));
+                auto comp = Component::create("c" + std::to_string(i));
+                comp->addVariable(vars[static_cast<size_t>(i)]);
+                model->addComponent(comp);
+            }
+            for (size_t k = 0; k < edges.size(); ++k) {
+                bool sw = ((interleave >> k) & 1) != 0;
+                Variable::addEquivalence(vars[static_cast<size_t>(sw ? edges[k].second : edges[k].first)], vars[static_cast<size_t>(sw ? edges[k].first : edges[k].second)]);
+            }
+            return true;
+        };
+        if (!build()) {
+            return;
         }
 
         auto nameOf = [&](int i) { return i < nPlaced ? names[static_cast<size_t>(i)] + "@" + hex(addrs[static_cast<size_t>(i)]) : "x" + std::to_string(i) + "(malloc)"; };
@@ -811,6 +834,64 @@ void run(Src &src, Case &c)
         }
         c.count("queries:areEquivalentVariables", asked);
         VP_CHECK(c, !anyInvalid, "C18.harness|valid-model-not-analysable", "every query answered correctly but the analysis failed:\n" << analysisNote << c.text);
+
+        // ---- history: release the model, put new objects at the same addresses, analyse with the first Analyser again
+        if (scenario2 >= 0) {
+            AnalyserPtr reused = analysers[0];
+            std::vector<std::weak_ptr<Variable>> old(vars.begin(), vars.end());
+            {
+                // the analyser lets go of its analyser model (which holds the model) only at its next analysis
+                auto dm = Model::create("d");
+                auto dc = Component::create("dc");
+                auto dv = Variable::create("dv");
+                dv->setUnits("dimensionless");
+                dv->setInitialValue(1.0);
+                dc->addVariable(dv);
+                dm->addComponent(dc);
+                reused->analyseModel(dm);
+            }
+            ams.clear();
+            analysers.clear();
+            vars.clear();
+            model.reset();
+            for (const auto &w : old) {
+                VP_CHECK(c, w.expired(), "C18.harness|not-released", "a Variable of the first model is still alive after the model, the analyser models and the second analyser were released");
+            }
+            setScenario(scenario2);
+            if (!build()) {
+                return;
+            }
+            reused->analyseModel(model);
+            AnalyserModelPtr am = reused->model();
+            auto fresh = Analyser::create();
+            fresh->analyseModel(model);
+            AnalyserModelPtr fam = fresh->model();
+            VP_CHECK(c, am != nullptr && fam != nullptr, "C18.harness|no-analyser-model", "Analyser::model() returned null");
+            for (u64 k = 0; k < total; ++k) {
+                u64 idx = o2.at(k);
+                int i = static_cast<int>(idx / static_cast<u64>(nAll)), j = static_cast<int>(idx % static_cast<u64>(nAll));
+                bool expected = i == j || cls[static_cast<size_t>(i)] == cls[static_cast<size_t>(j)];
+                for (int which = 0; which < 2; ++which) {
+                    bool got = (which == 0 ? am : fam)->areEquivalentVariables(vars[static_cast<size_t>(i)], vars[static_cast<size_t>(j)]);
+                    ++asked;
+                    if (got != expected) {
+                        c.fail(std::string("C18.addr-recycled") + (which == 0 ? "" : "-fresh") + "|" + q.family + "|" + kind(i, j, expected),
+                               "after recycling the addresses: AnalyserModel::areEquivalentVariables(" + nameOf(i) + ", " + nameOf(j) + ") of the " + (which == 0 ? "re-used" : "fresh") + " Analyser's model = " + std::to_string(got)
+                                   + ", expected " + std::to_string(expected) + "\n" + c.text);
+                        return;
+                    }
+                }
+                if (!checkHas(i, j)) {
+                    return;
+                }
+            }
+            VP_CHECK(c, am->type() == fam->type(), "C18.addr-verdict|recycled|type",
+                     "re-used Analyser: " << AnalyserModel::typeAsString(am->type()) << " " << dumpIssues(reused).substr(0, 800) << "\nfresh Analyser: " << AnalyserModel::typeAsString(fam->type()) << " " << dumpIssues(fresh).substr(0, 800) << "\n"
+                                          << c.text);
+            VP_CHECK(c, dumpIssues(reused) == dumpIssues(fresh), "C18.addr-verdict|recycled|issues", firstDiff(dumpIssues(fresh), dumpIssues(reused)) << "\n" << c.text);
+            VP_CHECK(c, am->isValid(), "C18.harness|valid-model-not-analysable", "second (recycled) model: " << dumpIssues(reused).substr(0, 800) << "\n" << c.text);
+            c.count("queries:areEquivalentVariables-after-recycling", static_cast<long>(2 * total));
+        }
     }
 }
 
@@ -836,7 +917,8 @@ Property property = {
     "address ranges Linux gives a PIE heap and the mmap area; families: equal sums, equal xors, equal differences, equal low 32 bits, equal linear combinations, same pages, and 64-bit wrap-around collisions of the Cantor pairing "
     "(solved from n(32q+32n+1) == f mod 2^59, both a table of spans below 1 MiB and tape-chosen larger steps, also with one object of each pair in the heap and one in the mmap area). A valid model (one variable per component, "
     "one initial value per class; scenarios A~B, C~D, both, none, crosswise, A~B~C, optionally through a third variable) is analysed for real and all ordered pairs are asked on one or two analyser models, the two pairs first in "
-    "a tape-chosen order. Oracle: the harness's union-find. Every mappable quadruple is non-trivial. Distinct = hash of family, addresses and scenario.",
+    "a tape-chosen order. History: the model is then released (the analyser first analyses a dummy model so that it lets go), new Variable objects are placed at the same addresses with a different scenario, "
+    "analysed by the first Analyser again and by a fresh one; all pairs are asked on both models and the verdicts must agree. Oracle: the harness's union-find. Every mappable quadruple is non-trivial. Distinct = hash of family, addresses and scenario.",
     run,
     nullptr,
     {"no sanitizer in this harness (the allocator is replaced)", "addresses outside the constructed families are not covered: an arbitrary lossy key would need luck of order 2^-64 per pair",
